@@ -7,6 +7,7 @@ from typing import Dict, List, Optional, Set
 from .. import astutil as A
 from ..domains import LEN_CLASSES, eval_len_test
 from ..model import AnalysisError
+from .. import types as T
 from ..report import Ob, bad, ok, unresolved
 from . import rule
 from .common import is_raise_of, method_calls
@@ -522,4 +523,227 @@ def total8(ctx) -> List[Ob]:
             elif isinstance(n, ast.Raise):
                 key = "raise " + (A.alpha_key(n.exc) if n.exc is not None else "")
                 out.append(bad("TOTAL-8", fn.qualname, key, ctx.where(fn, n), f"'{A.unparse(n)[:60]}' reachable while a graph is written or read"))
+    return out
+
+
+def _guard_key(fn, node) -> str:
+    from .ctrl import _guard_conditions
+
+    gs = _guard_conditions(fn.node, node)[:3]
+    return " & ".join(("" if pol else "not ") + A.alpha_key(ast.parse(t, mode="eval").body) for t, pol in reversed(gs))
+
+
+@rule("TOTAL-9", 6, "rendering never rejects a graph: every raise / assert reachable from the renderers is a type narrowing or an audited unreachable arm (keyed with its guard)")
+def total9(ctx) -> List[Ob]:
+    out: List[Ob] = []
+    mod = ctx.prog.module("rendering")
+    for fn in ctx.prog.functions:
+        if fn.module is not mod:
+            continue
+        for n in A.walk_no_nested(fn.node):
+            if isinstance(n, ast.Assert):
+                key = "assert " + A.alpha_key(n.test)
+                if _is_narrowing(n.test):
+                    out.append(ok("TOTAL-9", fn.qualname, key, ctx.where(fn, n), "type-narrowing assertion", nontrivial=False))
+                else:
+                    out.append(bad("TOTAL-9", fn.qualname, key, ctx.where(fn, n), f"assertion '{A.unparse(n.test)[:60]}' can make rendering fail"))
+            elif isinstance(n, ast.Raise):
+                g = _guard_key(fn, n)
+                key = "raise " + (A.alpha_key(n.exc) if n.exc is not None else "") + (" under " + g if g else "")
+                out.append(bad("TOTAL-9", fn.qualname, key, ctx.where(fn, n), f"'{A.unparse(n)[:50]}' can be reached while rendering (under: {g or 'no condition'})"))
+    return out
+
+
+def _use_guards(fn_node, node):
+    """guards of an expression: enclosing if-statements and conditional expressions"""
+    out = []
+    child = node
+    for anc in A.ancestors(node):
+        if isinstance(anc, ast.If):
+            if child in anc.body:
+                out.append((A.unparse(anc.test), True))
+            elif child in anc.orelse:
+                out.append((A.unparse(anc.test), False))
+        elif isinstance(anc, ast.IfExp):
+            if child is anc.body:
+                out.append((A.unparse(anc.test), True))
+            elif child is anc.orelse:
+                out.append((A.unparse(anc.test), False))
+        if anc is fn_node:
+            break
+        child = anc
+    return out
+
+
+def _flag_guarded(fn_node, var, use_guards) -> bool:
+    """the read is under `if flag` and every `flag = <truthy>` sits in a statement list that also assigns var"""
+    for text, pol in use_guards:
+        if not pol or not text.isidentifier():
+            continue
+        sets = [s for s in A.walk_no_nested(fn_node) if isinstance(s, ast.Assign) and any(isinstance(t, ast.Name) and t.id == text for t in s.targets)]
+        if not sets:
+            continue
+        good = True
+        for s in sets:
+            if isinstance(s.value, ast.Constant) and not s.value.value:
+                continue
+            if not (isinstance(s.value, ast.Constant) and s.value.value is True):
+                good = False
+                break
+            par = A.parent(s)
+            sibs = [x for fld in ("body", "orelse", "finalbody") for x in (getattr(par, fld, None) or []) if isinstance(getattr(par, fld, None), list) and s in getattr(par, fld)]
+            if not any(isinstance(x, (ast.Assign, ast.AnnAssign)) and var in {n.id for t in (x.targets if isinstance(x, ast.Assign) else [x.target]) for n in ast.walk(t) if isinstance(n, ast.Name)} for x in sibs):
+                good = False
+                break
+        if good:
+            return True
+    return False
+
+
+@rule("USE-1", 100, "no local variable is read on a path on which it has not been assigned (NameError / UnboundLocalError at run time)")
+def use1(ctx) -> List[Ob]:
+    import builtins
+
+    out: List[Ob] = []
+    from .ctrl import _guard_conditions
+
+    n_fn = 0
+    for fn in ctx.prog.functions:
+        n_fn += 1
+        cfg = ctx.cfg(fn)
+        params = {p.arg for p in fn.params}
+        a = fn.node.args
+        if a.vararg:
+            params.add(a.vararg.arg)
+        if a.kwarg:
+            params.add(a.kwarg.arg)
+        local_defs = set()
+        for z in cfg.nodes:
+            local_defs |= set(cfg.defs_at(z))
+        # names assigned in this function but not parameters: locals
+        locals_ = local_defs - params
+        # closure variables of enclosing functions are defined there
+        flagged = set()
+        for z in cfg.nodes:
+            if z.stmt is None:
+                continue
+            for e in z.walk():
+                if not (isinstance(e, ast.Name) and isinstance(e.ctx, ast.Load) and e.id in locals_):
+                    continue
+                if e.id in flagged:
+                    continue
+                # comprehension-bound names shadow
+                if any(isinstance(anc, (ast.ListComp, ast.SetComp, ast.DictComp, ast.GeneratorExp)) and any(e.id in A.names_in(g.target) for g in anc.generators) for anc in A.ancestors(e)):
+                    continue
+                if any(isinstance(anc, ast.Lambda) for anc in A.ancestors(e)):
+                    continue
+                defs = cfg.reaching_defs(e)
+                if cfg.entry not in defs:
+                    continue
+                # a definition in the same statement (for-loop target, with-as, walrus) counts
+                if e.id in cfg.defs_at(z) and z.kind in ("for", "with"):
+                    continue
+                real = [d for d in defs if d.stmt is not None]
+                ug = set(_use_guards(fn.node, e))
+                if real and all(set(_guard_conditions(fn.node, d.stmt)) and set(_guard_conditions(fn.node, d.stmt)) <= ug for d in real):
+                    continue  # same guards as the definitions
+                if real and _flag_guarded(fn.node, e.id, ug):
+                    continue  # read under a flag that is set only where the variable is assigned
+                # defined by every iteration of an enclosing loop that also runs the use? (loop body def before use)
+                flagged.add(e.id)
+                if not real:
+                    why = "never assigned before this read"
+                else:
+                    why = f"assigned only on some paths (lines {sorted(A.lineno(d.stmt) for d in real)[:3]})"
+                out.append(bad("USE-1", fn.qualname, f"read of {e.id}", ctx.where(fn, e), f"local '{e.id}' is read at line {A.lineno(e)} but {why}: NameError / UnboundLocalError on the other paths"))
+        out.append(ok("USE-1", fn.qualname, "locals defined before use", ctx.where(fn), f"{len(locals_)} locals", nontrivial=False))
+    return out
+
+
+def _class_has_attr(ctx, c, attr: str) -> bool:
+    if c.find_method(attr) is not None:
+        return True
+    if attr in ctx.typer.instance_attrs(c):
+        return True
+    for k in c.mro():
+        for st in k.node.body:
+            if isinstance(st, ast.Assign) and any(isinstance(t, ast.Name) and t.id == attr for t in st.targets):
+                return True
+            if isinstance(st, ast.AnnAssign) and isinstance(st.target, ast.Name) and st.target.id == attr:
+                return True
+        if len(k.bases) != len([b for b in k.base_names if b != "object"]):
+            return True  # an external base class: unknown members
+    return attr.startswith("__")
+
+
+def _caller_arg_types(ctx, fn, pname):
+    """classes of the argument bound to parameter pname at every call site `<x>.<fn.name>(...)` / `<fn.name>(...)` of the library"""
+    names = [p.arg for p in fn.params]
+    off = 1 if fn.cls is not None and names and names[0] in ("self", "cls") else 0
+    idx = names.index(pname) - off
+    out = []
+    for g in ctx.prog.functions:
+        genv = None
+        for c in A.walk_no_nested(g.node):
+            if not isinstance(c, ast.Call):
+                continue
+            f = c.func
+            nm = f.attr if isinstance(f, ast.Attribute) else (f.id if isinstance(f, ast.Name) else None)
+            if nm != fn.name or (fn.cls is not None and not isinstance(f, ast.Attribute)):
+                continue
+            arg = None
+            if 0 <= idx < len(c.args) and not any(isinstance(a, ast.Starred) for a in c.args[: idx + 1]):
+                arg = c.args[idx]
+            for k in c.keywords:
+                if k.arg == pname:
+                    arg = k.value
+            if arg is None:
+                out.append([])
+                continue
+            if genv is None:
+                genv = ctx.typer.env(g)
+            t = ctx.typer.type_of(arg, genv, g)
+            cs = ctx.typer.classes_of(t)
+            out.append(cs if cs and len(cs) == len(T.members(T.strip_none(t))) else [])
+    return out
+
+
+@rule("ATTR-1", 150, "an attribute read or method call on a value of a library class names a member that every class the value can have at that point defines (after isinstance / type() narrowing)")
+def attr1(ctx) -> List[Ob]:
+    out: List[Ob] = []
+    n = 0
+    for fn in ctx.prog.functions:
+        env = ctx.typer.env(fn)
+        for e in A.walk_no_nested(fn.node):
+            if not (isinstance(e, ast.Attribute) and isinstance(e.ctx, ast.Load) and isinstance(e.value, ast.Name)):
+                continue
+            t = ctx.typer.type_of(e.value, env, fn)
+            cs = ctx.typer.classes_of(t)
+            if not cs or len(cs) != len(T.members(T.strip_none(t))):
+                continue
+            # hasattr(x, "attr") guard
+            if any(isinstance(a, (ast.If, ast.IfExp, ast.BoolOp)) and f"hasattr({e.value.id}, '{e.attr}')" in A.unparse(a.test if not isinstance(a, ast.BoolOp) else a) for a in A.ancestors(e) if not isinstance(a, (ast.FunctionDef,))):
+                continue
+            n += 1
+            missing = [c.name for c in cs if not _class_has_attr(ctx, c, e.attr)]
+            key = f"{e.value.id}.{e.attr}"
+            if missing and e.value.id == "self" and fn.cls is not None:
+                # a member supplied by the subclasses: every concrete subclass must have it
+                subs = [k for k in ctx.prog.subclasses(fn.cls, strict=True)]
+                lacking = sorted(k.name for k in subs if not _class_has_attr(ctx, k, e.attr))
+                if subs and not lacking:
+                    out.append(ok("ATTR-1", fn.qualname, key, ctx.where(fn, e), f"defined by every subclass ({', '.join(sorted(k.name for k in subs))})", nontrivial=False))
+                    continue
+                if subs:
+                    out.append(bad("ATTR-1", fn.qualname, key + " lacking in " + ",".join(lacking), ctx.where(fn, e), f"'{A.unparse(e)}': neither {fn.cls.name} nor its subclass(es) {', '.join(lacking)} define '{e.attr}': AttributeError when this line runs on such an instance"))
+                    continue
+            if missing and e.value.id in {p.arg for p in fn.params}:
+                sites = _caller_arg_types(ctx, fn, e.value.id)
+                if sites and all(cc and all(_class_has_attr(ctx, k, e.attr) for k in cc) for cc in sites):
+                    out.append(ok("ATTR-1", fn.qualname, key, ctx.where(fn, e), f"the annotation is wider than what the {len(sites)} call site(s) pass: every caller passes a class that defines {e.attr}"))
+                    continue
+            if missing:
+                out.append(bad("ATTR-1", fn.qualname, key, ctx.where(fn, e), f"'{A.unparse(e)}': {', '.join(sorted(missing))} has no member '{e.attr}' (the value is a {T.show(t)} here): AttributeError at run time"))
+            else:
+                out.append(ok("ATTR-1", fn.qualname, key, ctx.where(fn, e), f"{T.show(t)} defines {e.attr}", nontrivial=False))
     return out
